@@ -1,5 +1,6 @@
 import KitProofs.Props.C04Parser
 import KitProofs.Props.C04Next
+import KitProofs.Props.C04Bridge
 import KitProofs.Props.C03
 import KitProofs.Props.C01NoPanic
 import KitProofs.Lemmas.NoPanicSym
@@ -25,6 +26,20 @@ ever exhausted — the search ends by the five-year rule. -/
 theorem cron_next_terminates (s : CronSpec.Sched) (off : Int) (h60 : off % 60 = 0) (tn : Int) :
     CronSpec.next s (CronSpec.fixedZone off) tn ≠ .fuel :=
   CronSpec.next_terminates s off h60 tn
+
+/-- The property's cron clause end to end (C04Bridge): for every spec string `Parse` accepts under an
+option set `NewParser` accepts, `Next` on the schedule it produced returns — an instant or the zero
+time, never a panic, an error or an exhausted loop bound — from every instant, in every zone with
+a constant whole-minute offset. -/
+theorem cron_parse_then_next_returns (env : Cron.Env) (o : Cron.Opts) (h2 : o.twoOptionals = false)
+    (spec : List Char) (s : Cron.SpecSchedule) (loc : Option String)
+    (h : Cron.parse env o spec = .ok (.spec s loc)) (off : Int) (h60 : off % 60 = 0) (tn : Int) :
+    (∃ r, CronBridge.parseThenNext env o spec (CronSpec.fixedZone off) tn = .at r) ∨
+      CronBridge.parseThenNext env o spec (CronSpec.fixedZone off) tn = .zero := by
+  obtain ⟨_, _, hr⟩ := CronBridge.parseThenNext_spec env o h2 spec s loc h off h60 tn
+  rcases hr with ⟨r, hr, _⟩ | ⟨hz, _⟩
+  · exact Or.inl ⟨_, hr⟩
+  · exact Or.inr hz
 
 /-- `aeskw.Unwrap` never panics (after fix 4f2d58e; `unwrap_prefix_witness` in C03 is the code as found). -/
 theorem aeskw_unwrap_never_panics (bc : CryptoGlue.BlockCipher) (c : Bytes) : (CryptoGlue.unwrap bc c).isPanic = false :=
